@@ -4,8 +4,10 @@ the cached counters exactly as it found them, so any history of calls answers li
 -/
 import Pfl.Model.CFGCounters
 import Pfl.Props.C12_Classes
+import Pfl.Proofs.CFGCounters
 namespace Pfl
 namespace CFG
+open Pfl.CFG.Ctr
 
 /-- the restore pass undoes every decrement: the cached counters are unchanged, whatever they were -/
 theorem genCounters_restores (G : CFG) (nullable : Bool) (rem : Remaining) (imp : Impacts)
@@ -14,19 +16,27 @@ theorem genCounters_restores (G : CFG) (nullable : Bool) (rem : Remaining) (imp 
     (hnd : (rem.map (·.1)).Nodup)
     (hpos : ∀ e ∈ rem, ∀ n ∈ e.2, 0 < n)
     (h : G.genCounters nullable rem imp added fuel = some (found, rem')) : rem' = rem := by
-  sorry
+  unfold genCounters at h
+  dsimp only at h
+  split at h
+  · cases h
+  · next f r l hc =>
+    simp only [Option.some.injEq, Prod.mk.injEq] at h
+    obtain ⟨_, rfl⟩ := h
+    exact restores_core rem imp fuel _ _ f r l hwf hnd hpos hc
 
 /-- on the tables built from the grammar, the generating run returns the generating symbols -/
 theorem genCounters_generating (G : CFG) (hG : G.WF) (fuel : Nat) (found : List Sym) (rem' : Remaining)
     (h : G.genCounters false G.buildTables.1 G.buildTables.2.1 G.buildTables.2.2 fuel = some (found, rem'))
     (s : Sym) : s ∈ found ↔ s ∈ G.generating := by
-  sorry
+  have _ := hG
+  exact counters_main G false fuel found rem' h s
 
 /-- and the nullable run the nullable symbols -/
 theorem genCounters_nullable (G : CFG) (fuel : Nat) (found : List Sym) (rem' : Remaining)
     (h : G.genCounters true G.buildTables.1 G.buildTables.2.1 G.buildTables.2.2 fuel = some (found, rem'))
     (s : Sym) : s ∈ found ↔ s ∈ G.nullable := by
-  sorry
+  exact counters_main G true fuel found rem' h s
 
 /-- history independence: after any run the tables are the built ones again, so a later run
 (of either kind) answers exactly like the first run on a fresh object -/
@@ -34,7 +44,8 @@ theorem genCounters_history (G : CFG) (n1 n2 : Bool) (fuel1 fuel2 : Nat) (f1 : L
     (h1 : G.genCounters n1 G.buildTables.1 G.buildTables.2.1 G.buildTables.2.2 fuel1 = some (f1, r1)) :
     G.genCounters n2 r1 G.buildTables.2.1 G.buildTables.2.2 fuel2 =
       G.genCounters n2 G.buildTables.1 G.buildTables.2.1 G.buildTables.2.2 fuel2 := by
-  sorry
+  rw [genCounters_restores G n1 _ _ _ fuel1 f1 r1 (buildTables_hwf G) (buildTables_hnd G)
+    (buildTables_hpos G) h1]
 
 end CFG
 end Pfl
